@@ -141,7 +141,7 @@ class Spec:
 # --------------------------------------------------------------------------------------------------
 # operations: tuples; ('ins', spec, idx|None, viaStr) ('add', spec, viaStr) ('del', i) ('enc', name|None)
 # ('text', [spec]) ('nsset', p, u) ('nsdel', p) ('nins', path, spec, idx|None, viaStr) ('ndel', path, i)
-# ('ntext', path, [spec]) ('mode', raising)
+# ('ntext', path, [spec]) ('mode', raising) ('insl', [spec], idx|None) ('ninsl', path, [spec], idx|None)
 
 def op_to_json(op):
     return [x.to_json() if isinstance(x, Spec) else [s.to_json() for s in x] if (isinstance(x, list) and x and
@@ -156,6 +156,10 @@ def ops_from_json(data):
             out.append((t, Spec.from_json(op[1])) + tuple(op[2:]))
         elif t == 'text':
             out.append((t, [Spec.from_json(s) for s in op[1]]))
+        elif t == 'insl':
+            out.append((t, [Spec.from_json(s) for s in op[1]], op[2]))
+        elif t == 'ninsl':
+            out.append((t, tuple(op[1]), [Spec.from_json(s) for s in op[2]], op[3]))
         elif t == 'nins':
             out.append((t, tuple(op[1]), Spec.from_json(op[2])) + tuple(op[3:]))
         elif t == 'ntext':
@@ -208,6 +212,10 @@ def op_line(op):
         return 'ndel %s %d' % (path(op[1]), op[2])
     if t == 'ntext':
         return 'ntext %s %s' % (path(op[1]), specs(op[2]))
+    if t == 'insl':
+        return 'insl %s %s' % (specs(op[1]), idx(op[2]))
+    if t == 'ninsl':
+        return 'ninsl %s %s %s' % (path(op[1]), specs(op[2]), idx(op[3]))
     if t == 'mode':
         return 'mode %d' % op[1]
     if t == 'decl':
@@ -300,6 +308,17 @@ def boundary_histories():
         for i in (0, 1, 2):
             hs.append([('add', im, 0), ('add', st, 0), ('insord', k, i, 0), ('insord', k, i, 1)])
             hs.append([('add', im, 0), ('insord', k, min(i, 1), 0)])
+    # CSSRuleList arguments: all or nothing; every rule goes through the kind / position checks
+    mar = S('margin', pre='@top-left')
+    for lst in ([st, co], [st, im], [im, ns, va, st], [ch, im], [co, ch], [ns, ns], [], [ff, me, pa], [va, ns]):
+        for i in (None, 0, 1, 3):
+            hs.append([('add', im, 0), ('add', st, 0), ('insl', lst, i), ('insl', lst, i)])
+    for cont, good in ((me, [st, co, un, pa, me]), (pa, [mar, S('margin', pre='@top-right')])):
+        for bad in kids_all:
+            for lst in (good[:2], [good[0], bad], [bad, good[0]], [bad], []):
+                hs.append([('add', cont, 0), ('ninsl', (0,), lst, None), ('ninsl', (0,), lst, 0), ('ninsl', (0,), lst, 9)])
+    hs.append([('text', [S('media', kids=[S('media', kids=[st]), S('page', kids=[mar])])]),
+               ('ninsl', (0, 0), [st, ff, co], 1), ('ninsl', (0, 1), [mar, st], None), ('ninsl', (0, 1), [S('margin', pre='@top-right')], 0)])
     # the default namespace, used by a bare type selector
     hs.append([('nsset', '', 'u'), ('ins', S('style', used=['u']), None, 1), ('nsdel', ''), ('nsset', '', 'u'), ('nsset', '', 'v'),
                ('nsset', 'p', 'u'), ('nsdel', ''), ('del', 0), ('del', 0), ('nsdel', 'p')])
@@ -393,8 +412,13 @@ class Walker:
             return ('ins', self.spec(self.kind(), declared), self.index(n), int(r.random() < 0.3))
         if x < 0.38:
             return ('add', self.spec(self.kind(), declared), int(r.random() < 0.3))
-        if x < 0.40:
+        if x < 0.395:
             return ('insord', self.spec(self.kind(), declared), r.randint(0, n), int(r.random() < 0.3))
+        if x < 0.42:
+            # a CSSRuleList: mostly rules that may follow each other at that index, sometimes anything
+            ks = [self.kind() if r.random() < 0.5 else r.choice(['style', 'comment', 'media', 'page', 'fontface', 'unknown'])
+                  for _ in range(r.randint(0, 4))]
+            return ('insl', [self.spec(k, declared) for k in ks], self.index(n))
         if x < 0.50:
             return ('del', r.randint(-n - 1, n))
         if x < 0.55:
@@ -417,6 +441,10 @@ class Walker:
         path, c = r.choice(conts)
         m = len(c.cssRules)
         is_media = c.type == c.MEDIA_RULE
+        if x < 0.80 + 0.03:
+            good = ['style', 'comment', 'unknown', 'page', 'media', 'style'] if is_media else ['margin']
+            ks = [r.choice(good) if r.random() < 0.8 else r.choice(ALLKINDS) for _ in range(r.randint(0, 4))]
+            return ('ninsl', path, [self.spec(k, declared, 1) for k in ks], self.index(m))
         if x < 0.90:
             if r.random() < 0.8:
                 k = r.choice(['style', 'comment', 'unknown', 'page', 'media', 'style'] if is_media else ['margin'] * 5 + ['comment'])
@@ -427,9 +455,9 @@ class Walker:
             return ('nins', path, s, self.index(m), via)
         if x < 0.96:
             return ('ndel', path, r.randint(-m - 1, m))
-        # prefixes in the text of a container that is itself nested are resolved through parentStyleSheet, which is
-        # None there (known finding C09-parentstylesheet-depth2): such texts are generated without namespaces
-        nons = len(path) >= 2
+        # (prefixes in the text of a container that is itself nested are resolved through parentStyleSheet, which is the
+        # sheet at every depth since the fix of C09-parentstylesheet-depth2)
+        nons = False
         if is_media:
             ks = [self.spec(r.choice(['style', 'comment', 'unknown', 'page', 'media', 'style', 'style'] if r.random() < 0.85
                                      else ALLKINDS), declared, 1, nons) for _ in range(r.randint(0, 4))]
@@ -527,6 +555,17 @@ class HistState:
                 arg = spec.text(lambda u: None) if via else spec.build(self.tracked)
                 self.last_arg = arg
                 r = c.insertRule(arg, op[3])
+            elif t in ('insl', 'ninsl'):
+                # a CSSRuleList of fresh rule objects (the class only lets the owner append, so use list.append)
+                specs = op[1] if t == 'insl' else op[2]
+                rl = css.CSSRuleList()
+                for sp in specs:
+                    list.append(rl, sp.build(self.tracked))
+                self.last_arg = rl
+                if t == 'insl':
+                    r = self.sheet.insertRule(rl, op[2])
+                else:
+                    r = self.at(op[1]).insertRule(rl, op[3])
             elif t == 'ndel':
                 r = self.at(op[1]).deleteRule(op[2])
             elif t == 'ntext':
